@@ -24,6 +24,7 @@ def Fresh : Nat → List Ev → Prop
   | cur, .clear _ r _ :: t => r = cur ∧ Fresh cur t
   | cur, .chunk r _ :: t => r = cur ∧ Fresh cur t
   | cur, .xfer _ :: t => Fresh cur t
+  | cur, .reserveFailed _ :: t => Fresh cur t
 
 theorem lastGrant_append (cur : Nat) (a b : List Ev) :
     lastGrant cur (a ++ b) = lastGrant (lastGrant cur a) b := by
